@@ -87,7 +87,8 @@ def main(argv):
                 print(f'{name:45s} red={red or "none"}', flush=True)
                 continue
             print(f'{name:10s} {prop} rc={own.get("rc")} {kind:16s} also-red={others} {res.get("error", "")}', flush=True)
-    (seeded / 'RESULTS.json').write_text(json.dumps(results, indent=1))
+    out = Path(os.environ['PM_RESULTS']) if os.environ.get('PM_RESULTS') else seeded / 'RESULTS.json'
+    out.write_text(json.dumps(results, indent=1))
     sh(['git', '-C', '/repo', 'worktree', 'prune'])
 
 
